@@ -148,7 +148,9 @@ pub trait ExpressionReducer {
         let (name, v) = a.into();
         // the target may contain expressions too (the subscripts of an array element)
         let name = match name {
-            Expression::ArrayElement(_, _, _) => self.visit_expression(name)?,
+            Expression::ArrayElement(_, _, _) | Expression::Property(_, _, _) => {
+                self.visit_expression(name)?
+            }
             _ => name,
         };
         Ok(Assignment::new(name, self.visit_expression_pos(v)?))
